@@ -21,7 +21,7 @@ Larger(a, b) == IF a > b THEN a ELSE b
 SmallL(p) == IF IsTop(p.L) THEN 2 ELSE p.L
 Case(id, level, kind, pay, fee, scale, unit, t0, reqs) ==
   [id |-> id, level |-> level, kind |-> kind, pay |-> pay, fee |-> fee, scale |-> scale,
-   unit |-> unit, t0 |-> t0, cap |-> Larger(SmallL(pay), SmallL(fee)) + 1, reqs |-> SetToSeq(reqs)]
+   unit |-> unit, t0 |-> t0, cap |-> Larger(SmallL(pay), SmallL(fee)) + 1, ns |-> 0, reqs |-> SetToSeq(reqs)]
 
 StructCase(id, p, t0) == Case(id, "struct", "intervals", p, Unl(p.B, p.K), 1, 1, t0, StructReqs(p))
 
@@ -49,6 +49,14 @@ NodeNearmaxCase(id, kind, p, scale) ==
   Case(id, "node", kind, p, Unl(2, 12), scale, 1000, EPOCH,
        {Req("AddKeysend", dt, a) : dt \in {0, p.K * p.B}, a \in Amounts(p, {})}
          \cup {Req("AddInvoice", dt, a) : dt \in {0, p.K * p.B}, a \in {1, 2}} \cup {RestartReq})
+\* retries at node level: one named invoice hash and one named keysend hash (besides fresh ones),
+\* submitted directly (Node::add_*) and through the approver (handle_proposed_*: has_payment
+\* shortcut), with the same or another amount, in the same bucket / a full window / after expiry
+NodeRetryCase(id, kind, p, scale, ns) ==
+  [Case(id, "node", kind, p, IF kind = "hourly" THEN Unl(2, 12) ELSE Ctl(2, 24, 50), scale, 1000, EPOCH,
+        {ReqH(op, dt, a, h) : op \in InvoiceOps \cup KeysendOps, dt \in {0, W(p), p.K * p.B}, a \in {1, p.L},
+                              h \in 0..ns} \cup {RestartReq})
+   EXCEPT !.ns = ns]
 \* both controls limited; small alphabet: an approved payment persists the fee control as well
 NodeMixedCase(id, kind, p, f, scale) ==
   Case(id, "node", kind, p, f, scale, 1000000, EPOCH,
@@ -64,7 +72,8 @@ QuickCases ==
      ApproverCase("a-hourly-2", "hourly", Hourly(2), 150),
      NodePayCase("n-pay-hourly-2", "hourly", Hourly(2), 150, 0),
      NodeFeeCase("n-fee-hourly-2", "hourly", Hourly(2), 150, 0),
-     NodeMixedCase("n-mixed-hourly-2", "hourly", Hourly(2), Hourly(2), 150) >>
+     NodeMixedCase("n-mixed-hourly-2", "hourly", Hourly(2), Hourly(2), 150),
+     NodeRetryCase("n-retry-hourly-2", "hourly", Hourly(2), 150, 1) >>
 
 ThoroughCases ==
   QuickCases \o
@@ -79,7 +88,9 @@ ThoroughCases ==
      NodeNearmaxCase("n-pay-hourly-nearmax", "hourly", Hourly(TOP - 1), 150),
      NodeFeeCase("n-fee-hourly-3", "hourly", Hourly(3), 150, 0),
      NodeFeeCase("n-fee-daily-2", "daily", Daily(2), 1800, 50),
-     NodeMixedCase("n-mixed-daily-2", "daily", Daily(2), Daily(2), 1800) >>
+     NodeMixedCase("n-mixed-daily-2", "daily", Daily(2), Daily(2), 1800),
+     NodeRetryCase("n-retry-daily-3", "daily", Daily(3), 1800, 1),
+     NodeRetryCase("n-retry-hourly-2x2", "hourly", Hourly(2), 150, 2) >>
 
 Cases == IF Tier = "thorough" THEN ThoroughCases ELSE QuickCases
 
